@@ -37,6 +37,8 @@ Inductive hop :=
 | HExecute (t : Z) (maxc : nat)
 | HSetFocus (g : Z) | HPopFocus | HClearFocus | HResetNoLoop
 | HEnable (name : Z) (b : bool)
+| HRemoveRule (name : Z)   (* engine.knowledge_base().remove_rule: the no-loop record of the engine is keyed by name and is NOT pruned *)
+| HAddRule (r : crule)     (* engine.knowledge_base().add_rule (names are kept distinct by the generator) *)
 | HActivate (g : Z)   (* RustRuleEngine::activate_agenda_group: the API counterpart of the ActivateAgendaGroup action; documented meaning: the group gets the focus, once *).
 
 Definition set_enabled (e : cengine) (n : Z) (b : bool) : cengine :=
@@ -59,6 +61,10 @@ Definition hstep (es : cengine * store) (o : hop) : (cengine * store) * sx :=
   | HResetNoLoop => (({| rules := rules e; fired_global := []; ag := ag e; act_fired := act_fired e; queue := queue e |}, s), L [A (active (ag e))])
   | HEnable n b => ((set_enabled e n b, s), L [A (active (ag e))])
   | HActivate g => ((with_ag e (set_focus (ag e) g), s), L [A (active (set_focus (ag e) g))])
+  | HRemoveRule n =>
+      (({| rules := filter (fun r => negb (r_name r =? n)) (rules e); fired_global := fired_global e; ag := ag e;
+           act_fired := act_fired e; queue := queue e |}, s), L [A (active (ag e))])
+  | HAddRule r => ((add_rule e r, s), L [A (active (ag e))])
   end.
 
 Fixpoint hrun (es : cengine * store) (ops : list hop) : list sx :=
@@ -67,7 +73,7 @@ Fixpoint hrun (es : cengine * store) (ops : list hop) : list sx :=
 (** wire: case = ((rule ...) (f0 f1 f2 f3) (hop ...))
     rule = (name sal enabled noloop lock agenda actgroup from until (atom ...) (action ...))
     agenda/actgroup/from/until = () | (z) ; atom = (f cmp k), cmp 0..5 ; action = (0 f v) | (1 f c) | (2 g)
-    hop = (0 t maxc) | (1 g) | (2) | (3) | (4) | (5 name b) *)
+    hop = (0 t maxc) | (1 g) | (2) | (3) | (4) | (5 name b) | (6 g) activate_agenda_group | (7 name) remove_rule | (8 rule) add_rule *)
 Definition dec_oz (s : sx) : option (option Z) := match s with L [] => Some None | L [A z] => Some (Some z) | _ => None end.
 Definition dec_cmp (s : sx) : option cmp :=
   match s with A 0 => Some CEq | A 1 => Some CNe | A 2 => Some CLt | A 3 => Some CLe | A 4 => Some CGt | A 5 => Some CGe | _ => None end.
@@ -96,6 +102,8 @@ Definition dec_hop (s : sx) : option hop :=
   | L [A 4] => Some HResetNoLoop
   | L [A 5; A n; b] => option_map (HEnable n) (getB b)
   | L [A 6; A g] => Some (HActivate g)
+  | L [A 7; A n] => Some (HRemoveRule n)
+  | L [A 8; r] => option_map HAddRule (dec_rule r)
   | _ => None end.
 
 Definition run_sx (c : sx) : sx :=
